@@ -29,7 +29,7 @@ RULE = ("cases = codec (bits, M, container form) exhaustively over all bit strin
         "M in 2..16 / 2..256 plus random long ones in 9 container forms; decoder on arbitrary slot patterns; HDD on all slot "
         "patterns up to 8 (quick) / 16 (thorough) slots, M<=8, with numpy's own draws (spied) and with every combination of "
         "draws the code's own randint/choice calls allow (stub enumerating the requested range/array) for patterns up to 8 slots; SDD on exact dyadic samples with ties, 4 input forms, "
-        "and on DAC waveforms; rejected orders/lengths; malformed inputs.  non-trivial = accepted call on a non-empty input, "
+        "and on DAC waveforms; every length 1..4*M*sps for M in 2..16, sps in {1,2,3,5,8,16} (SDD) and 0..4*M (HDD); rejected orders; malformed inputs.  non-trivial = accepted call on a non-empty input, "
         "distinct by (kind, M, input, draws)")
 PARTIAL = [
     "arguments are left unchanged by PPM_ENCODER / PPM_DECODER / HDD / SDD: runtime monitor on every call (bytes of ndarray inputs and of "
@@ -357,6 +357,19 @@ def gen_cases(rng, tier):
                 if n % (M * sps):
                     cases.append({"kind": "sdd", "M": M, "sps": sps, "xs": [rng.randint(0, 9) for _ in range(n)],
                                   "form": rng.choice(sdd_forms[:1] + sdd_forms[2:])})
+    # EVERY length from 1 to 4*M*sps (quick: 3*M*sps for the two largest M) on small (M, sps): ValueError exactly when the length
+    # is not a multiple of M*sps, a decision on every whole symbol otherwise
+    k_forms = ["ndarray", "esig", "list"]
+    for M in [2, 4, 8, 16]:
+        for sps in [1, 2, 3, 5, 8, 16]:
+            top = (4 if (not quick or M <= 4) else 3) * M * sps
+            for L in range(1, top + 1):
+                cases.append({"kind": "sdd", "M": M, "sps": sps, "xs": [rng.randint(0, 9) for _ in range(L)],
+                              "form": k_forms[(L + M + sps) % 3]})
+    for M in [2, 4, 8, 16]:
+        for L in range(0, 4 * M + 1):
+            cases.append({"kind": "hdd", "M": M, "data": _data(rng.choice(SEQ_FORMS), _rand_bits(rng, L), rng),
+                          "np_seed": rng.randrange(1 << 32)})
     # noiseless waveforms of codewords: exact pulses (kron) and DAC renderings
     for _ in range(60 if quick else 1200):
         M = rng.choice([2, 4, 8, 16, 64])
